@@ -28,6 +28,11 @@ CHECKS = {
     technique='TLA+ spec MassAssign.tla: TLC proves the code-shaped deposit (round, three weights, wraps) equals the declarative periodic kernel on the whole lattice and emits the expected 1-D deposits; real kernels compared exactly on dyadic inputs',
     text='TLC checks, for every lattice position x offset x grid size, that the algorithm as coded equals the periodic TSC/CIC kernel (A=D), conserves mass, is non-negative, rolls under whole-cell shifts and keeps every index in bounds; it emits the 1-D deposit table from which the separable 3-D expectation is built. _tsc_scatter, tsc_parallel (threads, partitions, coord, sort, wrap), cic_serial (3-D and 2-D) and get_field are compared with it by exact equality on single particles at every lattice point of every axis, multi-particle weighted sets accumulated into pre-filled grids, out-of-range positions and rolls.',
     note='Lattice of 1/4 cell and offsets within half a cell; dyadic boxes (anisotropic shapes restricted to g_i/Box dyadic); TSC on a 3-D array with a one-cell axis is outside the documented domain.'),
+ 'C08': dict(
+    design='DESIGN.md §5 C08',
+    technique='TLA+ spec ModeBinning.tla: TLC proves the binning loops as written equal the declarative per-mode assignment for every instance and emits per-cell expected bins/multiplicities; the real bin_kmu/bin_kppi are probed cell by cell against it',
+    text='For 139 (quick) instances of mesh size 2..8 (thorough 2..12) x k-edge families x mu/pi binnings TLC evaluates the loops as coded (folding, continue/break, incremental search, multiplicity, edge-array bounds) against the declarative full-mesh assignment (A=D; the original loops are rejected as positive control) and emits every half-mesh cell with its multiplicity and acceptable bins. The real kernels are probed with one indicator mesh per cell (bin, multiplicity, exactly-once), whole-call counts and thread invariance are checked, and value / |k| / (2l+1)P_l means and the l=0-vs-wedges identity are compared with an exact rational oracle; calc_pk_from_deltak and project_3d_to_poles are checked against bin_kmu.',
+    note='dk = 1 (L = 2*pi) and half-unit edges make comparisons exact; a mode exactly on an edge may fall on either side; mu edges span [0,1]; P_l is evaluated in float32 inside the kernel (5e-5 tolerance for l>0).'),
 }
 NA = [
  dict(property_id='C18', reason='Pure real-valued geometry (square roots, sines, cross products) on a fixed finite domain of 65 340 codes: no state, order, schedule or index structure for a TLA+ transition system, and orthonormality/coverage are floating-point facts outside TLC integer arithmetic; an exhaustive numeric sweep would be a different technique (DESIGN.md §7).'),
